@@ -149,6 +149,7 @@ pub fn check_loop(case: &LoopCase, out: &LoopOutcome) -> Vec<Finding> {
                 };
                 if bad {
                     let what = match e.kind {
+                        Kind::BarrierArrive => "a wait at the threads' barrier".to_owned(),
                         Kind::AllocOp => format!("allocator operation of the {}", SITE_NAMES[decode_op(e).1]),
                         k => format!("{k:?}"),
                     };
